@@ -82,7 +82,7 @@ class ThrustFrame(Harness):
     """position_control / se23_position_control: Rd = [xB yB zB] handed to the quaternion extraction is a proper
     rotation; zB * nT = T (demanded force) when |T| > 1e-3; yB is perpendicular to the heading vector when the
     cross product is non-degenerate; nT = |T|"""
-    timeout_ms = 60000
+    timeout_ms = 180000  # the known-finding cells need ~40 s on a quiet machine; generous so that load does not turn them unknown
     max_cells = 200
 
     def __init__(self, which):
